@@ -415,6 +415,15 @@ class C13(Check):
 
     @staticmethod
     def _same_out(io, mo, vm):
+        try:
+            return C13._same_out_(io, mo, vm)
+        except KeyError:
+            # the implementation's output mentions a variable that occurs nowhere in this history's requests (a result handed
+            # over from another computation): a disagreement with the model, not a harness error
+            return False
+
+    @staticmethod
+    def _same_out_(io, mo, vm):
         if "err" in io or "err" in mo:
             return io.get("err") == mo.get("err")
         if "contract" in io:
